@@ -1,0 +1,20 @@
+//go:build verif
+
+package gem
+
+// Machine-checked contracts for this package (checked by /verif/govc; see /verif/DESIGN.md).
+// This file contains comments only; it is compiled only under the build tag "verif".
+
+//@ func compareInt
+//@   comparator a ~ b                                     [C01]
+//@   ensures result == 0 ==> a == b                       [C01]
+//@   ensures result == (a < b ? -1 : (a > b ? 1 : 0))     [C03 C13]
+
+//@ func compareSegments
+//@   comparator a ~ b                                     [C01]
+
+//@ func compareSegmentArrays
+//@   comparator a ~ b                                     [C01]
+
+//@ func (*Version).Compare
+//@   comparator v ~ other                                 [C01]
